@@ -17,6 +17,7 @@ Theorem C07_generated_shapes :
   facts_ok gen_facts = true /\
   boolop_eager_bool_fold = true /\ boolop_swallows_nonetype_typeerror = true /\ binop_sentinel_guard = true /\
   call_allowed_by_identity = true /\ final_raise_typeerror = true /\ typematcher_shapes_ok = true /\
+  forallb (fun root => in_list root compiled_extra_names) whitelist_roots = true /\
   dispatch_order = ["Constant"; "List"; "Tuple"; "Name"; "Attribute"; "BoolOp"; "BinOp"; "UnaryOp"; "Compare"; "Call";
                     "comprehension"; "GeneratorExp"] /\
   map fst data_names = ["None"; "True"; "False"; "str"; "repr"; "fields"; "any"; "all"; "lower"; "upper"; "name"; "names";
@@ -35,10 +36,11 @@ Theorem C07_generated_comparators :
 Proof. split; reflexivity. Qed.
 
 (* ---- the property ---- *)
-(* For EVERY record and EVERY expression of the language (in_language: and/or in boolean positions, no generator
-   expression inside the per-element part of another one) whose generator variables are pairwise distinct and new
-   (fresh_vars), on which all sub-expressions are defined: the interpreted engine returns a value with the truth
-   value of the Python meaning. *)
+(* For EVERY record and EVERY expression of the language (in_language: and/or in boolean positions) whose generator
+   variables are properly scoped (fresh_vars: no generator expression re-binds a variable of one that encloses it, the
+   `for` clauses of one generator expression bind distinct names, no variable is a name of the selector namespace or
+   of a field type -- sibling and nested generator expressions may use the same names), on which all sub-expressions
+   are defined: the interpreted engine returns a value with the truth value of the Python meaning. *)
 Theorem C07_interpreted : forall R e,
   in_language e = true -> fresh_vars e = true -> all_defined R e ->
   exists b, truth (interpreted R e) = Some b /\ truth (py_eval R e) = Some b.
@@ -70,14 +72,15 @@ Proof. reflexivity. Qed.
 Theorem C07_rejects_outside : forall F R d e, outside_node e = true -> exists x, fst (interp F R d e) = Exc x.
 Proof. exact rejects_outside. Qed.
 
-(* binary operators absent from AST_OPERATORS (- ** // ^ << >> @): an exception -- unless an operand is a missing field *)
-Theorem C07_rejects_outside_binop : forall F R d op l r, lang_binop op = false ->
-  (exists x, fst (interp F R d (EBinOp op l r)) = Exc x) \/
-  (exists a d1 b d2, interp F R d l = (Val a, d1) /\ interp F R d1 r = (Val b, d2) /\
-                     is_missing a || is_missing b = true /\ fst (interp F R d (EBinOp op l r)) = Val (VBool false)).
-Proof.
-  intros F R d op l r H. apply rejects_binop. rewrite unsupported_binops, H. reflexivity.
-Qed.
+(* binary operators absent from AST_OPERATORS (- ** // ^ << >> @): KeyError before any operand is evaluated *)
+Theorem C07_rejects_outside_binop : forall R d op l r, lang_binop op = false ->
+  fst (interp gen_facts R d (EBinOp op l r)) = Exc EKeyError.
+Proof. intros R d op l r H. exact (rejects_binop gen_facts R d op l r eq_refl H). Qed.
+
+(* after a successful evaluation the namespace is what `matches` built: generator variables do not leak *)
+Theorem C07_generator_variables_do_not_leak : forall R e,
+  in_language e = true -> fresh_vars e = true -> all_defined R e -> snd (interp gen_facts R std_data e) = std_data.
+Proof. intros R e HL HF [v H]. exact (interpreted_state_restored gen_facts R e v eq_refl HL HF H). Qed.
 
 (* ---- witnesses ---- *)
 Definition cp (s : string) : str := string_to_str s.
@@ -89,24 +92,11 @@ Definition fld n := EAttr (EName "r") n.
 Definition int z := EConst (VInt z).
 Definition txt s := EConst (VStr (cp s)).
 
-(* r.zz - 1  ==> False, not an error (known finding) *)
-Theorem C07_rejects_outside_binop_refuted : interpreted R1 (EBinOp Sub (fld "zz") (int 1)) = Val (VBool false).
-Proof. reflexivity. Qed.
-
 (* (r.n and r.m) == 5  with n = 100, m = 5: Python True, interpreter False (known finding) *)
 Definition w_boolop := ECompare (EBoolOp And [fld "n"; fld "m"]) [(CEq, int 5)].
 Theorem C07_refuted_boolop_as_operand :
   fresh_vars w_boolop = true /\ (exists v, py_strict R1 w_boolop = Val v) /\ in_language w_boolop = false /\
   py_eval R1 w_boolop = Val (VBool true) /\ interpreted R1 w_boolop = Val (VBool false).
-Proof. repeat split; try reflexivity. eexists; reflexivity. Qed.
-
-(* any(x == 1 for x in r.a) and any(x == 2 for x in r.a): Python True, interpreter InvalidOperation (known finding) *)
-Definition w_reuse :=
-  EBoolOp And [EQuant false (ECompare (EName "x") [(CEq, int 1)]) [Comp "x" (fld "a") []];
-               EQuant false (ECompare (EName "x") [(CEq, int 2)]) [Comp "x" (fld "a") []]].
-Theorem C07_refuted_generator_variable_reused :
-  in_language w_reuse = true /\ (exists v, py_strict R1 w_reuse = Val v) /\ fresh_vars w_reuse = false /\
-  py_eval R1 w_reuse = Val (VBool true) /\ interpreted R1 w_reuse = Exc EInvalidOperation.
 Proof. repeat split; try reflexivity. eexists; reflexivity. Qed.
 
 (* any(name == 1 for name in r.a): the variable shadows a name of the selector namespace (known finding) *)
@@ -116,20 +106,14 @@ Theorem C07_refuted_generator_variable_builtin :
   py_eval R1 w_builtin = Val (VBool true) /\ interpreted R1 w_builtin = Exc EInvalidOperation.
 Proof. repeat split; try reflexivity. eexists; reflexivity. Qed.
 
-(* all(any(y >= x for y in r.a) for x in r.a): Python True; the inner generator is entered a second time (known finding) *)
-Definition w_nested :=
-  EQuant true (EQuant false (ECompare (EName "y") [(CGtE, EName "x")]) [Comp "y" (fld "a") []]) [Comp "x" (fld "a") []].
-Theorem C07_refuted_nested_generator :
-  fresh_vars w_nested = true /\ (exists v, py_strict R1 w_nested = Val v) /\ in_language w_nested = false /\
-  py_eval R1 w_nested = Val (VBool true) /\ interpreted R1 w_nested = Exc EInvalidOperation.
+(* all(any(x >= 1 for x in r.a) for x in r.a): the inner generator re-binds the variable of the enclosing one --
+   fine in Python, refused by the interpreter's single namespace (same known finding) *)
+Definition w_enclosing :=
+  EQuant true (EQuant false (ECompare (EName "x") [(CGtE, int 1)]) [Comp "x" (fld "a") []]) [Comp "x" (fld "a") []].
+Theorem C07_refuted_generator_variable_shadows_enclosing :
+  in_language w_enclosing = true /\ (exists v, py_strict R1 w_enclosing = Val v) /\ fresh_vars w_enclosing = false /\
+  py_eval R1 w_enclosing = Val (VBool true) /\ interpreted R1 w_enclosing = Exc EInvalidOperation.
 Proof. repeat split; try reflexivity. eexists; reflexivity. Qed.
-
-(* string('abc') == r.s: the compiled engine has no name `string` (known finding) *)
-Definition w_ftype := ECompare (ECall (EName "string") [txt "abc"] []) [(CEq, fld "s")].
-Theorem C07_refuted_compiled_fieldtype_constructor :
-  in_language w_ftype = true /\ py_strict R1 w_ftype = Val (VBool true) /\ interpreted R1 w_ftype = Val (VBool true) /\
-  compiled R1 w_ftype = Exc ENameError.
-Proof. repeat split; reflexivity. Qed.
 
 (* Type.string not in ['abc']  (fields s = 'abc', t = 'x'): the interpreter unrolls the typed matcher and asks whether
    SOME string field is not in the list (True); Python's `not in` negates the membership test (False).  Documented as
@@ -143,14 +127,14 @@ Proof. repeat split; reflexivity. Qed.
 Definition w_chain := ECompare (int 1) [(CLt, fld "n"); (CLt, int 3)].       (* 1 < r.n < 3, n = 100 *)
 Theorem C07_prefix_refuted_first_link_only :
   in_language w_chain = true /\ fresh_vars w_chain = true /\ py_strict R1 w_chain = Val (VBool false) /\
-  fst (interp {| chained := false; ifs_honoured := true; tm_keeps_attrs := true |} R1 std_data w_chain) = Val (VBool true) /\
+  fst (interp {| chained := false; ifs_honoured := true; tm_keeps_attrs := true; genvars_scoped := true; binop_lookup_first := true |} R1 std_data w_chain) = Val (VBool true) /\
   interpreted R1 w_chain = Val (VBool false).
 Proof. repeat split; reflexivity. Qed.
 
 Definition w_ifs := EQuant false (EName "x") [Comp "x" (EList [int 1; int 2]) [ECompare (EName "x") [(CGt, int 5)]]].
 Theorem C07_prefix_refuted_ifs_ignored :       (* any(x for x in [1, 2] if x > 5) *)
   in_language w_ifs = true /\ fresh_vars w_ifs = true /\ py_strict R1 w_ifs = Val (VBool false) /\
-  fst (interp {| chained := true; ifs_honoured := false; tm_keeps_attrs := true |} R1 std_data w_ifs) = Val (VBool true) /\
+  fst (interp {| chained := true; ifs_honoured := false; tm_keeps_attrs := true; genvars_scoped := true; binop_lookup_first := true |} R1 std_data w_ifs) = Val (VBool true) /\
   interpreted R1 w_ifs = Val (VBool false).
 Proof. repeat split; reflexivity. Qed.
 
@@ -164,8 +148,39 @@ Definition R2 : record :=
 Definition w_attrs := ECompare (EAttr (EAttr (EName "Type") "varint") "denominator") [(CEq, int 1)].
 Theorem C07_prefix_refuted_attrs_dropped :
   in_language w_attrs = true /\ fresh_vars w_attrs = true /\ py_strict R2 w_attrs = Val (VBool true) /\
-  fst (interp {| chained := true; ifs_honoured := true; tm_keeps_attrs := false |} R2 std_data w_attrs) = Val (VBool false) /\
+  fst (interp {| chained := true; ifs_honoured := true; tm_keeps_attrs := false; genvars_scoped := true; binop_lookup_first := true |} R2 std_data w_attrs) = Val (VBool false) /\
   interpreted R2 w_attrs = Val (VBool true) /\ compiled R2 w_attrs = Val (VBool true).
+Proof. repeat split; reflexivity. Qed.
+
+(* generator variables that stay in self.data (fact false): a later generator expression with the same variable, or the
+   same generator expression entered again for the next element of an enclosing one, is refused.
+     any(x == 1 for x in r.a) and any(x == 2 for x in r.a)        all(any(y >= x for y in r.a) for x in r.a) *)
+Definition leaking := {| chained := true; ifs_honoured := true; tm_keeps_attrs := true; genvars_scoped := false; binop_lookup_first := true |}.
+Definition w_reuse :=
+  EBoolOp And [EQuant false (ECompare (EName "x") [(CEq, int 1)]) [Comp "x" (fld "a") []];
+               EQuant false (ECompare (EName "x") [(CEq, int 2)]) [Comp "x" (fld "a") []]].
+Definition w_nested :=
+  EQuant true (EQuant false (ECompare (EName "y") [(CGtE, EName "x")]) [Comp "y" (fld "a") []]) [Comp "x" (fld "a") []].
+Theorem C07_prefix_refuted_generator_variables_leak :
+  in_language w_reuse = true /\ fresh_vars w_reuse = true /\ py_strict R1 w_reuse = Val (VBool true) /\
+  fst (interp leaking R1 std_data w_reuse) = Exc EInvalidOperation /\ interpreted R1 w_reuse = Val (VBool true) /\
+  in_language w_nested = true /\ fresh_vars w_nested = true /\ py_strict R1 w_nested = Val (VBool true) /\
+  fst (interp leaking R1 std_data w_nested) = Exc EInvalidOperation /\ interpreted R1 w_nested = Val (VBool true).
+Proof. repeat split; reflexivity. Qed.
+
+(* the operator looked up after the missing-field guard (fact false): r.zz - 1 is False instead of an error *)
+Theorem C07_prefix_refuted_binop_lookup_last :
+  fst (interp {| chained := true; ifs_honoured := true; tm_keeps_attrs := true; genvars_scoped := true; binop_lookup_first := false |}
+              R1 std_data (EBinOp Sub (fld "zz") (int 1))) = Val (VBool false) /\
+  interpreted R1 (EBinOp Sub (fld "zz") (int 1)) = Exc EKeyError.
+Proof. split; reflexivity. Qed.
+
+(* a compiled namespace with `net` only (before 57f8e26): string('abc') == r.s is a NameError *)
+Definition w_ftype := ECompare (ECall (EName "string") [txt "abc"] []) [(CEq, fld "s")].
+Theorem C07_prefix_refuted_compiled_without_fieldtypes :
+  in_language w_ftype = true /\ py_strict R1 w_ftype = Val (VBool true) /\ interpreted R1 w_ftype = Val (VBool true) /\
+  py_eval_gen R1 ["net"] true true false compiled_names w_ftype = Exc ENameError /\
+  compiled R1 w_ftype = Val (VBool true).
 Proof. repeat split; reflexivity. Qed.
 
 (* why all_defined speaks about EVERY operand: `False and r.n % 0 == 1` is False in Python, the interpreter evaluates
